@@ -47,6 +47,9 @@ def strategy(draw, tier="quick"):
             "inplace": draw(st.booleans()), "anchors": anchors,
             "bond_order": draw(st.sampled_from(["as-built", "shuffled"])), "seed": draw(st.integers(0, 2 ** 31)),
             "layout": draw(st.sampled_from(["blocks", "blocks", "interleaved", "by-position"])),
+            # residue names: neutral ones, or a mixture with water / ion / amino-acid names (a molecule may then be bonded across
+            # residues of different kinds, e.g. a metal ion with its coordinated waters)
+            "resnames": draw(st.sampled_from(["plain", "plain", "mixed"])),
             "late_bond": draw(st.integers(0, 4)) == 0,
             # the coordinate array of the trajectory is a view into a larger buffer (as after md.load of some formats, or
             # Trajectory(buf[1:], ...)), not an array that owns its memory
@@ -114,14 +117,19 @@ def build(case):
     # mdtraj iterates atoms residue by residue and relies on that being the index order, so a residue is always one
     # contiguous run of atoms: one residue per molecule (blocks), per atom (interleaved) or one for everything (by-position)
     single = top.add_residue("SYS", ch) if layout == "by-position" else None
+    nrng = np.random.Generator(np.random.PCG64(case["seed"] + 99))      # (its own stream: the coordinates do not depend on the names)
+    mixed = case.get("resnames") == "mixed"
+
+    def rname(default):
+        return str(nrng.choice(["HOH", "WAT", "NA", "ALA", "GLY", "LIG", default])) if mixed else default
     for new, (mi, k) in enumerate(slots):
         n = len(mol_atoms[mi])
         if layout == "blocks":
             if residues[mi] is None:
-                residues[mi] = top.add_residue("MOL" if n > 1 else "ION", ch)
+                residues[mi] = top.add_residue(rname("MOL" if n > 1 else "ION"), ch)
             res = residues[mi]
         else:
-            res = single or top.add_residue("ATM", ch)
+            res = single or top.add_residue(rname("ATM"), ch)
         top.add_atom("C%d" % k, elem.carbon if n > 1 else elem.sodium, res)
         new_index[mol_atoms[mi][k]] = new
     renum = np.array([new_index[i] for i in range(base)])
